@@ -342,7 +342,7 @@ def check(ctx):
     run.check(a_prop and b_prop, 'TFP', hd.where, hd.qualname, 'same property on both sides',
               'the format written with and the format stamped come from different field properties')
     # the property reaches the writer
-    p1 = fd.methods['process_resource']
+    p1 = ctx.N(fd.methods['process_resource'])
     run.check(has_stmt("_kw['temporal_format_property'] = self.temporal_format_property", p1.node) or
               has_expr('__F(..., temporal_format_property=self.temporal_format_property)', p1.node), 'TFP', p1.where,
               p1.qualname, 'writer gets temporal_format_property', 'the writer is not told about temporal_format_property')
